@@ -135,8 +135,10 @@ func libOpts(v ref.Variant, zip bool) *ed25519.Options {
 	optsCounter++
 	o := &ed25519.Options{}
 	if optsCounter%2 == 0 {
+		// re-filled field by field, as a caller would (the object itself,
+		// including anything the library may keep inside it, lives on)
 		o = reusedOpts
-		*o = ed25519.Options{}
+		o.Hash, o.Context = 0, ""
 	}
 	o.ZIP215Verify = zip
 	if v.Ph {
